@@ -151,9 +151,20 @@ def gen_case(rng, stream):
             if "bad" in vs[k]:
                 break
     case = {"stream": stream, "vars": vs, "xs": []}
+    _history_options(rng, case)
     if not any("bad" in v for v in vs):
         case["xs"] = [gen_x(rng, vs, exact) for _ in range(rng.choice([1, 2, 3]))]
     return case
+
+
+def _history_options(rng, case):
+    """how the declaration reaches the code (Python API / a YAML file) and whether the caller's detector and
+    pipeline objects have already run once (an exposure) before the calibration is built on them"""
+    vs = case["vars"]
+    if not any("bad" in v or v.get("as_tuple") for v in vs) and rng.random() < 0.4:
+        case["via"] = "yaml"
+    if rng.random() < 0.3:
+        case["pre_exposure"] = True
 
 
 def gen_history_case(rng, force):
@@ -175,7 +186,10 @@ def gen_run_case(rng, algo, single=False):
             vs[0]["values"], vs[0]["bounds"] = "_", (vs[0]["bounds"][0] if isinstance(vs[0]["bounds"][0], list) else vs[0]["bounds"])
         if sum(slots_of(v) for v in vs) <= 6:
             break
-    return {"stream": "run", "rounds": 2, "vars": vs, "algo": algo, "pygmo_seed": rng.randrange(1, 100000),
+    opts = {"vars": vs}
+    _history_options(rng, opts)
+    opts.pop("vars")
+    return {**opts, "stream": "run", "rounds": 2, "vars": vs, "algo": algo, "pygmo_seed": rng.randrange(1, 100000),
             "islands": rng.choice([1, 2]), "evolutions": 2, "best": rng.choice([0, 2, 3])}
 
 
@@ -191,9 +205,48 @@ def _pipeline(vs):
     return pyx.make_pipeline({GROUP: [{"name": MODEL, "func": "probes.cal_probe_det", "arguments": args}]})
 
 
-def _param_values(vs):
+def _param_values_yaml(vs):
+    """the declaration as a user writes it in a YAML file, read back through `pyxel.configuration.loads`
+    (-> configuration.to_parameters): boundaries exactly in the order written"""
+    import os
+
+    import numpy as np
+    import yaml
+    from pyxel.configuration import loads
+
+    tmp = tempfile.mkdtemp(prefix="c10y-")
+    try:
+        np.save(tmp + "/target.npy", np.zeros((ROWS, COLS)))
+        args = {}
+        for v in vs:
+            if not v.get("det"):
+                args[v["key"]] = [0.0] * len(v["values"]) if isinstance(v["values"], list) else v.get("default", 0.0)
+        doc = {
+            "calibration": {
+                "result_type": "pixel", "result_fit_range": [0, ROWS, 0, COLS], "target_fit_range": [0, ROWS, 0, COLS],
+                "target_data_path": [tmp + "/target.npy"],
+                "fitness_function": {"func": "pyxel.calibration.fitness.sum_of_abs_residuals"},
+                "algorithm": {"type": "sade", "generations": 1, "population_size": 8},
+                "parameters": [{"key": full_key(v), "values": v["values"], "logarithmic": v["log"], "boundaries": v["bounds"]} for v in vs],
+            },
+            "ccd_detector": {
+                "geometry": {"row": ROWS, "col": COLS, "total_thickness": 10.0, "pixel_vert_size": 10.0, "pixel_horz_size": 10.0},
+                "environment": {"temperature": 200.0},
+                "characteristics": {"quantum_efficiency": 0.5, "charge_to_volt_conversion": 1e-6, "pre_amplification": 10.0,
+                                    "adc_bit_resolution": 16, "adc_voltage_range": [0.0, 5.0], "full_well_capacity": 100000}},
+            "pipeline": {GROUP: [{"name": MODEL, "func": "probes.cal_probe_det", "enabled": True, "arguments": args}]},
+        }
+        cfg = loads(yaml.safe_dump(doc, sort_keys=False))
+        return list(cfg.calibration.parameters)
+    finally:
+        shutil.rmtree(tmp, ignore_errors=True)
+
+
+def _param_values(vs, via="python"):
     from pyxel.observation import ParameterValues
 
+    if via == "yaml":
+        return _param_values_yaml(vs)
     return [ParameterValues(key=full_key(v), values=tuple(v["values"]) if (v.get("as_tuple") and isinstance(v["values"], list)) else v["values"],
                             logarithmic=v["log"], boundaries=v["bounds"]) for v in vs]
 
@@ -219,7 +272,19 @@ def _same_declaration(a, b):
         x[0] == y[0] and x[1] == y[1] and x[2] == y[2] and np.array_equal(x[3], y[3]) for x, y in zip(a, b))
 
 
-def _problem(vs, tmp, pvs=None):
+def _objects(vs, pre_exposure):
+    """the caller's detector and pipeline objects; `pre_exposure`: they have already been used once for a plain
+    exposure (looking at the image before calibrating) — the calibration then works on objects with a history"""
+    import pyx
+    import pyxel
+
+    det, pipe = pyx.make_detector("CCD", ROWS, COLS), _pipeline(vs)
+    if pre_exposure:
+        pyxel.run_mode(pyx.make_exposure(), det, pipe)
+    return det, pipe
+
+
+def _problem(vs, tmp, pvs=None, via="python", pre_exposure=False):
     """the fitting problem exactly as Calibration.run_calibration builds it (`pvs`: the caller's own
     ParameterValues objects, re-used from one problem to the next in the history stream)"""
     import numpy as np
@@ -231,9 +296,10 @@ def _problem(vs, tmp, pvs=None):
 
     target = tmp + "/target.npy"
     np.save(target, np.zeros((ROWS, COLS)))
-    proc = Processor(detector=pyx.make_detector("CCD", ROWS, COLS), pipeline=_pipeline(vs))
+    det, pipe = _objects(vs, pre_exposure)
+    proc = Processor(detector=det, pipeline=pipe)
     return ModelFittingDataTree(
-        processor=proc, variables=_param_values(vs) if pvs is None else pvs, readout=Readout(), simulation_output="pixel",
+        processor=proc, variables=_param_values(vs, via) if pvs is None else pvs, readout=Readout(), simulation_output="pixel",
         generations=1, population_size=8,
         fitness_func=FitnessFunction("pyxel.calibration.fitness.sum_of_abs_residuals"), file_path=None,
         target_filenames=[target], target_fit_range=to_fit_range([0, ROWS, 0, COLS]),
@@ -269,7 +335,7 @@ def _eval_problem(vs, case, tmp, pvs):
     import probes
 
     try:
-        prob = _problem(vs, tmp, pvs)
+        prob = _problem(vs, tmp, pvs, pre_exposure=case.get("pre_exposure", False))
     except Exception as e:  # noqa: BLE001
         stage = "ctor" if any(v.get("bad") == "ctor-rows" for v in vs) and not isinstance(e, AssertionError) else "set_bound"
         return {"error": _err(e), "stage": stage, "msg": str(e)[:200]}
@@ -321,7 +387,7 @@ def run_direct(case):
     tmp = tempfile.mkdtemp(prefix="c10-")
     try:
         try:
-            pvs = _param_values(vs)
+            pvs = _param_values(vs, case.get("via", "python"))
         except Exception as e:  # noqa: BLE001
             return {"error": _err(e), "stage": "ctor", "msg": str(e)[:200]}
         declared = _snapshot(pvs)
@@ -345,9 +411,10 @@ def _one_calibration(case, cal, tmp):
     import pyxel
 
     vs = case["vars"]
+    det, pipe = _objects(vs, case.get("pre_exposure", False))
     probes.reset()
     try:
-        dt = pyxel.run_mode(cal, pyx.make_detector("CCD", ROWS, COLS), _pipeline(vs))
+        dt = pyxel.run_mode(cal, det, pipe)
     except Exception as e:  # noqa: BLE001
         return {"error": common.err_kind(e), "msg": str(e)[:300]}
     evals = [_assigned_from_kwargs(vs, json.loads(r[1])) for r in list(probes.LOG) if r[0] == "cal"]
@@ -388,7 +455,7 @@ def run_calibration(case):
         algo = {"sade": dict(type="sade", generations=2, population_size=8),
                 "sga": dict(type="sga", generations=2, population_size=6),
                 "nlopt": dict(type="nlopt", generations=1, population_size=5, maxeval=12, nlopt_solver="neldermead")}[case["algo"]]
-        pvs = _param_values(vs)
+        pvs = _param_values(vs, case.get("via", "python"))
         declared = _snapshot(pvs)
         # one configuration object, run `rounds` times in a row (what re-executing `pyxel.run_mode(config…)` does)
         cal = Calibration(
@@ -684,6 +751,8 @@ def body(ck: common.Check):
         ck.count("log_vars", sum(1 for v in case["vars"] if v["log"]))
         ck.count("vector_before_scalar", int(any(isinstance(a["values"], list) and b["values"] == "_" for a, b in zip(case["vars"], case["vars"][1:]))))
         ck.count("per_component_bounds", sum(1 for v in case["vars"] if isinstance(v["bounds"][0], list)))
+        ck.count("declared_via_yaml", int(case.get("via") == "yaml"))
+        ck.count("objects_ran_an_exposure_before", int(bool(case.get("pre_exposure"))))
         ck.count("tuple_declared_vectors", sum(1 for v in case["vars"] if v.get("as_tuple")))
         ck.count("int_default_scalars", sum(1 for v in case["vars"] if "default" in v))
         ck.count("detector_field_targets", sum(1 for v in case["vars"] if v.get("det")))
@@ -742,6 +811,8 @@ def body(ck: common.Check):
                f"relative tolerance {TOL} on logarithmic components only; malformed stream: the three rejected declarations), 1-3 decision "
                "vectors in the box incl. corners; every vector/scalar pattern with the logarithm on each position; full calibrations "
                "with sade/sga/nlopt (1-2 islands, 2 evolutions, best individuals) incl. single-scalar-parameter ones; "
+               "declarations through the Python API (lists / tuples) or written to YAML and read by pyxel.configuration.loads (boundaries in the order written, "
+               "per-component pairs in non-ascending order), detector/pipeline objects fresh or already used for an exposure before the calibration; "
                "history: 3 problems in a row / 2 calibrations in a row from the SAME ParameterValues objects (half of them with a logarithmic "
                "vector with per-component boundaries), each judged against the original declaration, and the caller's ParameterValues "
                "(values, boundaries, logarithmic) compared before/after every build and run; "
